@@ -380,4 +380,20 @@ theorem runCall_release {s : Sys} (hi : SInv s) (t : Tid) (hpc : s.pc t = .holdi
   simp [runCall, stepThread, hpc, setPc_same, hgt, hge, Counter.release]
   intro u hu; simp [setPc, hu]
 
+
+/-! ## many objects: each one only sees the events addressed to it -/
+
+theorem heap_run_proj (h : Heap) (es : List (Nat × Ev)) (o : Nat) :
+    (Heap.run h es).objs o = run (h.objs o) (eventsOf o es) := by
+  induction es generalizing h with
+  | nil => rfl
+  | cons pe es ih =>
+    obtain ⟨p, e⟩ := pe
+    simp only [Heap.run, eventsOf]
+    rw [ih]
+    by_cases hp : p = o
+    · subst hp; simp [Heap.step, run]
+    · have : ¬ o = p := fun hh => hp hh.symm
+      simp [Heap.step, hp, this]
+
 end KG.Lemmas.MaxInflight
